@@ -156,6 +156,7 @@ type Profile struct {
 	SvcPm         int
 	EnvLatePm     int
 	WrapperPm     int
+	StagedPm      int  // of the requests with a body: share whose client sends the head of the body and waits for the verdict
 	WrapperRecPm  int  // of the set-ups with a HandlerWrapper: share whose wrapper records its calls
 	HotStatic     bool // the hot path may be one of the Static tree's paths
 	Nested        bool // register /__nested and give every request a sub-request record
